@@ -19,8 +19,13 @@ func init() {
 
 // rawRun runs the whole front end once and renders everything a caller can observe, keeping every order as produced.
 func rawRun(text string) string {
-	out := map[string]any{}
 	s, err := spec.Parse("f", strings.NewReader(text))
+	return rawRender(s, err)
+}
+
+// rawRender renders what a finished spec.Parse returned (possibly long after the call, with other parses in between).
+func rawRender(s *spec.Spec, err error) string {
+	out := map[string]any{}
 	if err != nil {
 		out["parse_error"] = err.Error()
 		b, _ := json.Marshal(out)
